@@ -9,6 +9,7 @@ open Goat
 
 theorem flag_recvRechecksDoneOnCtx : Generated.cfg.recvRechecksDoneOnCtx = true := by decide
 theorem flag_finishOrder : Generated.cfg.finishOrder = true := by decide
+theorem flag_sendTeardownNoRst : Generated.cfg.sendTeardownNoRst = true := by decide
 theorem flag_forwardSelectsOnStreamDone : Generated.cfg.forwardSelectsOnStreamDone = true := by decide
 theorem sk_client_stream_NewStream : Generated.sk_client_stream_NewStream = Expected.sk_client_stream_NewStream := by decide
 theorem sk_client_stream_clientStream_RecvMsg : Generated.sk_client_stream_clientStream_RecvMsg = Expected.sk_client_stream_clientStream_RecvMsg := by decide
